@@ -57,6 +57,11 @@ void setup(void){ lifo_init(); parsec_lifo_nolock_push(&L, B); parsec_lifo_noloc
 void thread0(void){ parsec_list_item_t *x = parsec_lifo_pop(&L); if(x) parsec_lifo_push(&L, x); x = parsec_lifo_pop(&L); r[0] = x; }
 void thread1(void){ parsec_list_item_t *x = parsec_lifo_pop(&L); if(x) parsec_lifo_push(&L, x); r[1] = parsec_lifo_pop(&L); }
 #define NTHREADS 2
+#elif SCEN == 6 /* [A,B]  T0: pop    T1: pop; push(it)   (ABA with a non-empty rest: the re-pushed item has a successor) */
+void setup(void){ lifo_init(); parsec_lifo_nolock_push(&L, B); parsec_lifo_nolock_push(&L, A); }
+void thread0(void){ r[0] = parsec_lifo_pop(&L); }
+void thread1(void){ parsec_list_item_t *x = parsec_lifo_pop(&L); if(x) parsec_lifo_push(&L, x); }
+#define NTHREADS 2
 #endif
 
 static int held(parsec_list_item_t *it){ int n = 0; for(int k = 0; k < 6; k++) if(r[k] == it) n++; return n; }
@@ -109,5 +114,12 @@ void check(void)
     VASSERTM(n == 0, "stack empty at the end");
     if(r[0] == B) VWITNESS("T0 ends with B");
     if(r[0] == A) VWITNESS("T0 ends with A");
+#elif SCEN == 6
+    VASSERTM(in[0] + held(A) == 1, "A exactly once (stack xor one holder)");
+    VASSERTM(in[1] + held(B) == 1, "B exactly once (stack xor one holder)");
+    VASSERTM(r[0] != NULL, "two items, one net pop: the pop cannot see an empty stack (T1 holds at most one item)... unless T1 holds A and B is taken: impossible");
+    VASSERTM(n == 1, "exactly one item remains");
+    if(r[0] == A && in[1]) VWITNESS("T0 popped the recycled A, B remains");
+    if(r[0] == B) VWITNESS("T0 popped B while T1 held A");
 #endif
 }
